@@ -773,7 +773,7 @@ void copyforms(std::vector<PoolVal> &pool) {
       if (vp::past_deadline()) { vp::incomplete(DOMNAME + " copy forms"); return; }
       PoolVal &a = pool[i], &b = pool[j];
       if (a.w_used || b.w_used) continue;
-      std::string spec = "c|" + DOMNAME + "|" + CFGNAME + "|" + std::to_string(i) + "|" + std::to_string(j);
+      std::string spec = "c|" + DOMNAME + "|" + CFGNAME + "|" + std::to_string(i) + "|" + std::to_string(j) + "|" + FLAVOR;
       vp::set_case(spec);
       std::string ctx = "A: " + hist_str(a.path) + " B: " + hist_str(b.path);
       for (int bk = 0; bk < NB; bk++) {
@@ -831,7 +831,7 @@ void copyforms(std::vector<PoolVal> &pool) {
                 std::unique_ptr<DomBox> r0 = build();
                 later(*r0, l);
                 vp::viol(DOMNAME + ":C16:copy-or-normalisation-changes-later-result:" + prep_names[p], spec,
-                         "[" + DOMNAME + " " + CFGNAME + "] " + ctx + " V = " + build_names[bk] + " = " + build()->print() + "; " + later_names[l] + " on V gives " + r0->print() +
+                         "[" + DOMNAME + " " + CFGNAME + " " + FLAVOR + "] " + ctx + " V = " + build_names[bk] + " = " + build()->print() + "; " + later_names[l] + " on V gives " + r0->print() +
                              " but after " + prep_names[p] + " it gives " + use->print());
                 goto next_pair;
               }
@@ -941,7 +941,7 @@ int main(int argc, char **argv) {
       pool_pairs(P);
     } else if (f[0] == "c") {
       ALPHA = copyforms_alphabet(DOM->caps);
-      FLAVOR = "direct";
+      FLAVOR = f.size() > 5 ? f[5] : "direct";
       Node n = initial_node();
       std::vector<PoolVal> pool;
       std::set<std::string> seen;
@@ -1027,14 +1027,20 @@ int main(int argc, char **argv) {
                                            "packing_sdbm", "rgn_sdbm", "aa_sdbm", "bool_sparse_dbm"};
         if (!th && std::find(std::begin(quick_doms), std::end(quick_doms), e.name) == std::end(quick_doms)) continue;
         ALPHA = copyforms_alphabet(e.caps);
+        // the type-erased flavours (copy-on-write reference wrapper, owning wrapper): first configuration of two domains (all in thorough)
+        const bool flavours = &cfg == &cfgs[0] && (th || e.name == "intervals" || e.name == "split_dbm");
+        for (const char *fl : {"direct", "wrapped", "ref"}) {
+          if (std::string(fl) != "direct" && !flavours) continue;
+          FLAVOR = fl;
+          Node n = initial_node();
+          std::vector<PoolVal> pool;
+          std::set<std::string> seen;
+          std::vector<int> path;
+          collect_pool(n, 0, th ? 4 : 3, path, pool, seen, 100000);
+          vp::statmax("copyforms_pool." + DOMNAME, (long long)pool.size());
+          copyforms(pool);
+        }
         FLAVOR = "direct";
-        Node n = initial_node();
-        std::vector<PoolVal> pool;
-        std::set<std::string> seen;
-        std::vector<int> path;
-        collect_pool(n, 0, th ? 4 : 3, path, pool, seen, 100000);
-        vp::statmax("copyforms_pool." + DOMNAME, (long long)pool.size());
-        copyforms(pool);
       } else if (mode == "pairs") {
         ALPHA = build_alphabet(e.caps, false);
         FLAVOR = "direct";
